@@ -18,7 +18,10 @@ No Mathlib, no imports: loaded by the driver.
 -/
 namespace ParamVerif.Dispatch
 
-inductive Err | value | boom            -- ValueError (rejected value / unknown key) | exception raised by a body
+/-- ValueError (rejected value, unknown key of `update`) | an `Exception` raised by a body | a
+`BaseException` that is not an `Exception` (KeyboardInterrupt, CancelledError …) raised by a body |
+KeyError (`trigger` of an unknown name) -/
+inductive Err | value | boom | base | key
   deriving Repr, DecidableEq
 
 inductive Res | ok | raised (e : Err) | oof
@@ -31,6 +34,9 @@ structure Watcher where
   queued : Bool
   precedence : Int
   body : Nat                   -- index of the callback's program in `Cfg.bodies`
+  /-- identity of the callback function: what the callback itself can log.  Two registrations of the
+  same function with the same options are *equal* as Python namedtuples but distinct watchers. -/
+  cb : Nat
   deriving Repr, DecidableEq
 
 /-- a raw event (`type=None`) -/
@@ -60,7 +66,8 @@ inductive Stmt
   | discard (body : List Stmt)                      -- with discard_events(obj): body
   | watch (w : Watcher)                             -- obj.param.watch(...)
   | unwatch (wid : Nat)                             -- obj.param.unwatch(w)
-  | raise                                           -- raise Boom()
+  | raise                                           -- raise Boom()            (an Exception)
+  | raiseBase                                       -- raise BoomBase()        (a BaseException only)
   | try_ (body : List Stmt)                         -- try: body / except Exception: pass
   deriving Repr
 
@@ -246,20 +253,23 @@ def run (c : Cfg) : Nat → Call → World → Res × World × List Item
       (.ok, { w with regs := w.regs.filter (fun x => x.id ≠ wid) },
         [.stmt "unwatch" wid 0 0 w.batch w.trigger [] [] .ok])
     | .stmt .raise => (.raised .boom, w, [])
+    | .stmt .raiseBase => (.raised .base, w, [])
     | .stmt (.try_ body) =>
+      -- `except Exception`: everything but a bare BaseException
       match run c f (.stmts body) w with
+      | (.raised .base, w1, o1) => (.raised .base, w1, o1)
       | (.raised _, w1, o1) => (.ok, w1, o1)
       | r => r
     | .setAttr p v =>
       if c.isEvent p then
         -- `Event.__set__`: in modes 'set-reset' and 'set' run the ordinary setter; then, unless the
-        -- mode (re-read) is 'set', `_reset_event` puts False back without any event.  An exception
-        -- from the ordinary setter skips the reset.
+        -- mode (re-read) is 'set', `_reset_event` puts False back without any event (in a `finally`).
         match run c f (.setPlain p v) w with
-        | (.ok, w1, o1) =>
-          if w1.setMode.contains p then (.ok, w1, o1)
-          else (.ok, { w1 with vals := w1.vals.set p 0 }, o1)
-        | r => r
+        | (.oof, w1, o1) => (.oof, w1, o1)
+        | (r, w1, o1) =>
+          -- finally: the reset also happens when the setter raised
+          if w1.setMode.contains p then (r, w1, o1)
+          else (r, { w1 with vals := w1.vals.set p 0 }, o1)
       else run c f (.setPlain p v) w
     | .setPlain p v =>
       -- `Parameter.__set__`: validate, store, then dispatch to the watchers registered for p
@@ -298,7 +308,7 @@ def run (c : Cfg) : Nat → Call → World → Res × World × List Item
       let saved := w.batch
       let w0 := { w with batch := wt.queued || w.batch, ncalls := w.ncalls + 1 }
       let (r1, w1, o1) := run c f (.stmts (c.body wt.body)) w0
-      (r1, { w1 with batch := saved }, [.call wt.id evs viaFlush w.vals o1 r1])
+      (r1, { w1 with batch := saved }, [.call wt.cb evs viaFlush w.vals o1 r1])
     | .flush =>
       if w.events.isEmpty then (.ok, w, [])
       else
@@ -351,6 +361,8 @@ def run (c : Cfg) : Nat → Call → World → Res × World × List Item
           (r2, w2, o1 ++ o2)
         | r => r
     | .trigger ps =>
+      -- the names are looked up first: an unknown one raises KeyError before anything is touched
+      if ps.any (fun p => decide (p ≥ c.nparams)) then (.raised .key, w, []) else
       -- park the queues, set the flag, `update({name: current value})`; finally clear the flag and
       -- put the parked queues back *in front* (chronological order; watchers by identity, no duplicates);
       -- the flag is restored to what it was
